@@ -28,6 +28,7 @@ import io
 import json
 import os
 import random
+import zlib
 
 from .. import tlc
 
@@ -71,7 +72,7 @@ TIERS = {
         ParOpts=["float_m", "bnd", "float_g_bnd", "float_mg_bnd"],
         AllLines=True,
         n_amp=5000,
-        n_var=1000,
+        n_var=800,
         tlc_timeout=2400,
     ),
 }
@@ -435,8 +436,9 @@ def variants(ctx, c, rng, serial):
     f3 = write_yaml(os.path.join(d, "res_%d_c.yml" % serial), second)
     out.append(("include_file_list", make_config(c, include=[f2, f3], res_split={}), None))
     # the whole card from a YAML file
-    f4 = write_yaml(os.path.join(d, "card_%d.yml" % serial), make_config(c, alias=(serial % 2 == 1)))
-    out.append(("yaml_file" + ("_alias" if serial % 2 == 1 else ""), f4, None))
+    odd = zlib.crc32(card_id(c).encode()) % 2 == 1  # a function of the card, so that --replay takes the same branch
+    f4 = write_yaml(os.path.join(d, "card_%d.yml" % serial), make_config(c, alias=odd))
+    out.append(("yaml_file" + ("_alias" if odd else ""), f4, None))
     return out
 
 
@@ -645,6 +647,7 @@ def bind(ctx, tf_cards, ids, t, only=None):
                     ctx.violation("%s:interleaved:%s" % (ids[i], "+".join(dk)), {"first_load": describe(first[i], dk), "interleaved": describe(got, dk)})
     ctx.part("pass2_reload", cards=len(order2), identical=n_same, same_dict_twice=n_twice, interleaved_amplitudes=n_inter)
     density_observation(ctx)
+    binding_demo(ctx, tf_cards, ids, [i for i in order1 if "names" in first[i]])
     ctx.log("pass 2: %d cards reloaded, %d identical" % (len(order2), n_same))
 
     # ---- evidence -----------------------------------------------------------
@@ -678,6 +681,34 @@ def bind(ctx, tf_cards, ids, t, only=None):
     ctx.assume("parameter VALUES (random initial values) are not compared; names, fixed/free sets, bound and gauss dictionaries are")
     ctx.assume("the first kept chain in written order is the reference chain (constrains.decay.fix_chain_idx = 0 as in config.sample.yml)")
     ctx.assume("exported configuration is required to reproduce chains and J, P only (the property's wording), not parameter names or l_list")
+
+
+def binding_demo(ctx, tf_cards, ids, idx):
+    """self-test that must fail: a corrupted table entry has to be rejected by the comparison"""
+
+    class Collect:
+        def __init__(self):
+            self.keys = []
+
+        def violation(self, key, detail):
+            self.keys.append(key)
+
+    for i in idx:
+        c = tf_cards[i]
+        if len(c["kept"]) >= 2 and c["free"]:
+            got = project(make_config(c), amp=True)
+            wrong1 = expected(dict(c, kept=c["kept"][1:]))  # one allowed chain declared dropped
+            wrong2 = expected(dict(c, free=sorted(c["free"])[1:]))  # one free parameter declared fixed
+            k1, k2, k0 = Collect(), Collect(), Collect()
+            compare_with_spec(k1, c, ids[i], got, wrong1)
+            compare_with_spec(k2, c, ids[i], got, wrong2)
+            compare_with_spec(k0, c, ids[i], got, expected(c))
+            ok = bool(k1.keys) and any(k.endswith(":chains") for k in k1.keys) and k2.keys == [ids[i] + ":free"] and not k0.keys
+            ctx.cov["binding_demo"] = {"card": ids[i], "corrupted_chain_set_rejected": k1.keys, "corrupted_free_set_rejected": k2.keys, "uncorrupted_accepted": not k0.keys}
+            if not ok:
+                raise tlc.MachineryError("binding demonstration failed: %s" % ctx.cov["binding_demo"])
+            return
+    raise tlc.MachineryError("binding demonstration: no suitable card")
 
 
 JUDGE_DENSITY = False  # the property lists chains, parameter names and constraints; the density is observed only
